@@ -619,6 +619,9 @@ func fmtCompatible(t *lib.Term) bool {
 				if cp == "SF" || cp == "SM" || cp == "FM" || cp == "NILP" {
 					return false
 				}
+				if cp == "ER" && currentHook != "none" {
+					return false // with an error hook registered an error is rendered by the hook, not as fmt would
+				}
 			}
 		}
 		for _, x := range t.Xs {
